@@ -220,6 +220,9 @@ out["stack"] = res
 def mk_swath(cls, lons, lats):
     if cls == "future":
         return FutureSwathDefinition(lons, lats)
+    if cls == "grid":
+        from pyresample.geometry import GridDefinition
+        return GridDefinition(lons, lats)
     return SwathDefinition(lons, lats)
 
 
@@ -241,6 +244,14 @@ def back(arr, kind, which=0):
     n, m = arr.shape
     if kind == "xr":
         return xr.DataArray(arr, dims=("y", "x"))
+    if kind == "xr_xy":         # the FIRST axis is called 'x': positions, not names, decide what a row is
+        return xr.DataArray(arr, dims=("x", "y"))
+    if kind == "xr_xy_lab":
+        return xr.DataArray(arr, dims=("x", "y"), coords={"x": np.arange(n) + 100 * (which == 1), "y": np.arange(m)})
+    if kind == "xr_other":      # other dimension names
+        return xr.DataArray(arr, dims=("rows", "cols"))
+    if kind == "xr_one_named":  # only one of the two names is 'x' / 'y', and on the other axis
+        return xr.DataArray(arr, dims=("x", "lines"))
     if kind == "xr_dask":
         import dask.array as da
         return xr.DataArray(da.from_array(arr, chunks=2), dims=("y", "x"))
